@@ -50,6 +50,16 @@ def run_extract():
     rc, out = sh([exe, "-repo", REPO, "-lean", LEAN, "-json", gj])
     if rc != 0:
         return ["extractor failed: " + out[-400:]]
+    # command grammars and dispatch table (tools/extract_wire)
+    wexe = os.path.join(BUILD, "extract_wire")
+    wsrc = os.path.join(VERIF, "tools", "extract_wire")
+    if not os.path.exists(wexe) or os.path.getmtime(wexe) < os.path.getmtime(os.path.join(wsrc, "main.go")):
+        rc2, out2 = sh(["go", "build", "-o", wexe, "."], cwd=wsrc, env=GOENV)
+        if rc2 != 0:
+            return ["grammar extractor does not build: " + out2[-400:]]
+    rc2, out2 = sh([wexe, "-repo", REPO, "-ns", "Generated", "-out", os.path.join(LEAN, "RedkaModel", "Generated", "Grammar.lean")])
+    if rc2 != 0:
+        return ["grammar extractor failed: " + out2[-400:]]
     with open(gj) as f:
         gen = json.load(f)
     with open(os.path.join(LEAN, "RedkaModel", "Tie", "expected.json")) as f:
@@ -164,11 +174,11 @@ def run_stream(spec, workdir, idx, harness, driver="driver"):
     """spec: dict(kind='api'|'script'|'wire', args=[...] | script=str). Returns paths."""
     lines = os.path.join(workdir, f"lines_{idx}.txt")
     verd = os.path.join(workdir, f"verd_{idx}.txt")
-    if spec["kind"] == "script":
+    if spec["kind"] in ("script", "wirescript"):
         sp = os.path.join(workdir, f"script_{idx}.txt")
         with open(sp, "w") as f:
             f.write(spec["script"])
-        cmd = [harness, "script", sp]
+        cmd = [harness, "script", sp] if spec["kind"] == "script" else [harness, "wire", "-script", sp]
     else:
         cmd = [harness, spec["kind"]] + [str(a) for a in spec["args"]]
     with open(lines, "w") as lf:
@@ -200,6 +210,7 @@ def parse_verdict(vline):
     d["seq"] = seq
     d["model"] = parts[1] if len(parts) > 1 else None
     d["ERR"] = " ERR " in (" " + head)
+    d["panic"] = head.rstrip().endswith(" panic")
     d["K"] = [k for k in d.get("K", "").split(",") if k]
     d["D"] = [k for k in d.get("D", "").split(",") if k]
     return d
